@@ -49,5 +49,5 @@ let () =
       ^ ":" ^ str_of_bool r.d_ignore ^ ":" ^ str_of_bool r.d_win
     | _ -> "?args");
   register "c05_trim" (function [buf] ->
-      hex_of_bytes (trim_right Model.skip_trim_cutset (trim_vt100 (bytes_of_hex buf)))
+      hex_of_bytes (trim_right Consts.skip_trim_cutset (trim_vt100 (bytes_of_hex buf)))
     | _ -> "?args")
